@@ -1,4 +1,5 @@
 import logging
+import threading
 
 import engineio
 
@@ -42,6 +43,7 @@ class BaseServer:
         self.not_handled = object()
 
         self._binary_packet = {}
+        self._disconnect_lock = threading.Lock()
 
         if not isinstance(logger, bool):
             self.logger = logger
